@@ -154,8 +154,11 @@ def run_history(builder, hist, cycle=False, reload_before_last=False):
             w = call(obj.dumps)
             if w[0] == "ok":
                 r = call(obj.loads, w[1])
-                if r[0] != "ok" or getattr(obj, b["attr"]) != state:
-                    return state, ["step %d: the manifest cannot read its own file back into itself (%s)" % (n, r[1] if r[0] != "ok" else "table differs")], reasons
+                if r[0] != "ok":
+                    # (a manifest object that refuses to be loaded into a second time is not judged here: start over without it)
+                    return run_history(builder, hist, cycle=cycle)
+                if getattr(obj, b["attr"]) != state:
+                    return state, ["step %d: the manifest read its own file back into itself and holds a different table" % n], reasons
         state2, want, reason = m_step(builder, state, op)
         before = copy.deepcopy(getattr(obj, b["attr"]))
         args = [tuple(a[1:]) if _is_tuple_marker(a) else
